@@ -53,6 +53,9 @@ def units(tier):
     g = 8 if tier == "quick" else 16
     u = [{"k": "interval-ctor"}, {"k": "interval-contains"}, {"k": "interval-pairs"}, {"k": "interval-arith"},
          {"k": "angle-ctor", "g": g}, {"k": "angle-shift", "g": g}]
+    for cls in ("Interval", "AngleInterval"):
+        for first in ("start", "end"):
+            u.append({"k": "setter-history", "cls": cls, "first": first, "depth": 2 if tier == "quick" else 3})
     for s in range(-2 * g, 2 * g + 1):
         u.append({"k": "angle-contains", "g": g, "s": s})
         u.append({"k": "angle-contains-interval", "g": g, "s": s})
@@ -445,9 +448,82 @@ def _angle_ctor(res, g):
     res.sample({"op": "actor", "grid": g}, 1)
 
 
+def _setter_history(res, cls, first, depth):
+    """E1-style: every sequence of <= depth assignments to .start/.end (first one fixed by the unit), with the full
+    query set evaluated after construction and after every assignment (so that anything memoised by a query is
+    populated before the next assignment).  Oracle: the interval now denotes [start, end]."""
+    from commonroad.common.util import AngleInterval, Interval
+    if cls == "Interval":
+        ends = [-1.5, 0, 1, 2.5]
+        mk = Interval
+        queries = [-2.0, -1.5, -0.75, 0.0, 0.5, 1.0, 1.75, 2.5, 3.0]
+        exp = lambda a, b, x: (F(a) <= F(x) <= F(b))
+    else:
+        ends = [k * math.pi / 4 for k in (-6, -3, -1, 0, 2, 5)]
+        mk = AngleInterval
+        queries = [k * math.pi / 8 + 0.05 for k in range(-16, 17)]
+        exp = lambda a, b, x: _expect_angle(a, b, x)
+    pairs = [(a, b) for a in ends for b in ends if a <= b and (cls == "Interval" or b - a < TWO_PI)]
+    seqs = []
+    for d in range(1, depth + 1):
+        for rest in itertools.product([(w, v) for w in ("start", "end") for v in ends], repeat=d - 1):
+            for v0 in ends:
+                seqs.append([(first, v0)] + list(rest))
+    for a, b in pairs:
+        for seq in seqs:
+            cur = [a, b]
+            valid = True
+            try:
+                iv = mk(a, b)
+            except Exception:
+                break
+            hist = []
+            for step, (which, v) in enumerate([(None, None)] + seq):
+                if which is not None:
+                    new = [v, cur[1]] if which == "start" else [cur[0], v]
+                    if new[0] > new[1] or (cls != "Interval" and new[1] - new[0] >= TWO_PI):
+                        valid = False
+                        break
+                    hist.append([which, v])
+                    res.transitions += 1
+                    try:
+                        setattr(iv, which, v)
+                    except Exception as e:
+                        res.violation(f"C16|{cls}.{which}=|raises:{type(e).__name__}", f"[{cur}] {which}={v}: {e!r}",
+                                      {"op": "setter-history", "cls": cls, "a": a, "b": b, "seq": hist})
+                        valid = False
+                        break
+                    cur = new
+                for x in queries:
+                    e_ = exp(cur[0], cur[1], x)
+                    res.evals += 1; res.transitions += 1
+                    try:
+                        got = iv.contains(x)
+                    except Exception as e:
+                        res.violation(f"C16|{cls}.contains|after-setter|raises:{type(e).__name__}", repr(e),
+                                      {"op": "setter-history", "cls": cls, "a": a, "b": b, "seq": hist})
+                        continue
+                    if e_ is None:
+                        res.guarded += 1
+                        continue
+                    if bool(got) != e_:
+                        last = hist[-1][0] if hist else "ctor"
+                        res.violation(f"C16|{cls}.contains|stale-after-assigning:{last}|{'wrong-true' if got else 'wrong-false'}",
+                                      f"{cls}({a},{b}) after {hist}: contains({x}) = {got}, interval is now {cur}",
+                                      {"op": "setter-history", "cls": cls, "a": a, "b": b, "seq": hist})
+            if valid:
+                res.states += 1
+                res.nontrivial += 1
+                res.outcomes["setter-histories-completed"] += 1
+    res.sample({"op": "setter-history", "cls": cls, "first": first, "n_sequences": len(seqs), "n_start_intervals": len(pairs)}, 1)
+
+
 def run_unit(unit, tier):
     res = Result()
     k = unit["k"]
+    if k == "setter-history":
+        _setter_history(res, unit["cls"], unit["first"], unit["depth"])
+        return res
     if k == "interval-ctor":
         _interval_ctor(res)
     elif k == "interval-contains":
@@ -496,7 +572,10 @@ def replay(case):
             if "st" in case and abs(case["st"] / (math.pi / gg) - round(case["st"] / (math.pi / gg))) < 1e-9:
                 g = gg
                 break
-        if fam:
+        if op == "setter-history":
+            res = run_unit({"k": "setter-history", "cls": case["cls"], "first": case["seq"][0][0] if case["seq"] else "end",
+                            "depth": max(2, len(case["seq"]))}, "quick")
+        elif fam:
             res = run_unit({"k": fam}, "quick")
         elif op == "acontains_iv":
             res = run_unit({"k": "angle-contains-interval", "g": g, "s": round(case["st"] / (math.pi / g))}, "quick")
